@@ -16,7 +16,7 @@ def tail(p):
         return ls[-1] if ls else ''
     except OSError:
         return ''
-for d in sorted(glob.glob('/verif/seeded/*[bcdefghijklmno]')):
+for d in sorted(glob.glob('/verif/seeded/*[bcdefghijklmnop]')):
     sid = os.path.basename(d)
     notes = open(d + '/notes.md').read() if os.path.exists(d + '/notes.md') else ''
     t = glob.glob(d + '/*_test.go')[0]
@@ -24,7 +24,7 @@ for d in sorted(glob.glob('/verif/seeded/*[bcdefghijklmno]')):
     files = re.findall(r'^\+\+\+ b/(\S+)', open(d + '/patch.diff').read(), re.M)
     props, outcome = last.get(sid, ([sid[:-1]], 'not run'))
     meta = {
-        'seed': sid, 'property': sid[:-1], 'round': {'b': 2, 'c': 3, 'd': 4, 'e': 5, 'f': 6, 'g': 7, 'h': 8, 'i': 9, 'j': 10, 'k': 11, 'l': 12, 'm': 13, 'n': 14, 'o': 15}[sid[-1]],
+        'seed': sid, 'property': sid[:-1], 'round': {'b': 2, 'c': 3, 'd': 4, 'e': 5, 'f': 6, 'g': 7, 'h': 8, 'i': 9, 'j': 10, 'k': 11, 'l': 12, 'm': 13, 'n': 14, 'o': 15, 'p': 16}[sid[-1]],
         'source': 'fresh sub-agent given only the property text, a hint which mechanisms the earlier seeds for this property already used, and a scratch worktree of /repo outside /repo and /verif with the contract files removed; nothing from /verif. Confirmed by me (tools/confirm_seed2.sh).',
         'files_changed': files, 'patch': 'patch.diff',
         'change': section(notes, 'Change'), 'clause_broken': section(notes, 'Property clause broken'),
